@@ -81,6 +81,14 @@ Theorem C10_no_panic_archive_get :
 Proof. exact no_panic_archive_get. Qed.
 Print Assumptions C10_no_panic_archive_get.
 
+Theorem C10_no_panic_archive_get_many :
+  forall a reqs,
+    N.of_nat (length (ax_prefixes a)) < 4294967296 -> Forall (fun x => x < u64) (ax_prefixes a) ->
+    Forall (fun h => addr_prefix h < u64) reqs ->
+    aget_many a reqs <> GMCrash.
+Proof. exact no_panic_archive_get_many. Qed.
+Print Assumptions C10_no_panic_archive_get_many.
+
 Theorem C10_no_panic_archive_iterate :
   forall crc file a, aiterate crc file a <> IPanic.
 Proof. exact no_panic_archive_iterate. Qed.
